@@ -122,3 +122,87 @@ def senderror_desc(n):
         return None
     c = attr_chain(n.call.args[0]) or norm(n.call.args[0]).replace(" ", "")
     return c.split(".")[-1]
+
+
+def rule_consume(ctx, R):
+    """CONSUME: every call that resolves to a generator function is consumed by an accepted
+    idiom; a forwarded (idiom a) callee never yields values."""
+    from ..cfg import consume_idiom
+    an = ctx.an
+    counts = {"a": 0, "b": 0, "c": 0, "d": 0}
+    valued = {}
+
+    def yields_values(f):
+        if f.qname not in valued:
+            g = an.cfg(f)
+            valued[f.qname] = any(is_value_yield(n) for n in g.nodes)
+        return valued[f.qname]
+    for fi in ctx.index.all_functions():
+        if fi.module.name.startswith("integration") and fi.module.name != "integration.asyncstatemachine":
+            continue
+        parents = {}
+        for n in ast.walk(fi.node):
+            for c in ast.iter_child_nodes(n):
+                parents[c] = n
+        for n in own_nodes(fi.node):
+            if not isinstance(n, ast.Call) or not isinstance(n.func, ast.Attribute):
+                continue
+            if not (n.func.attr == "_sendError" or an.is_generator_call(fi, n)):
+                continue
+            par = parents.get(n)
+            what = "%s consumes %s" % (fi.short, norm(n.func))
+            if isinstance(par, ast.For) and par.iter is n:
+                idi = consume_idiom(par)
+                if idi is None and _blocking_take(par):
+                    counts["c"] += 1
+                    ctx.ok(R, what + " #%d (blocking take)" % par.lineno, fi.loc(par))
+                    continue
+                if idi is None:
+                    ctx.fail(R, fi.qname, norm(par.iter) + " consumption loop",
+                             "generator %s is iterated by a loop that is none of the accepted consumption "
+                             "idioms (forward all / forward 0,1 and take the value / drain): suspension or "
+                             "result may be lost" % norm(n.func), fi.loc(par))
+                    continue
+                counts[idi[0]] += 1
+                if idi[0] == "a":
+                    tg = ctx.index.resolve_call(fi, n)
+                    bad = [t for t in tg if t.is_generator and yields_values(t)]
+                    # a forwarding wrapper may forward values if it is itself consumed with idiom b
+                    ctx.check(R, not bad or fi.name in FORWARDERS, fi.qname, what,
+                              "%s forwards every yield of %s although that generator also yields a result "
+                              "value: the value would be passed on as if it were a would-block indication"
+                              % (fi.short, norm(n.func)), fi.loc(par), what=what + " #%d" % par.lineno)
+                else:
+                    ctx.ok(R, what + " #%d" % par.lineno, fi.loc(par))
+            elif isinstance(par, (ast.Assign, ast.Return)):
+                counts["d"] += 1
+                ok = isinstance(par, ast.Return) or any(
+                    (isinstance(t, ast.Name) and t.id in ("handshaker", "gen", "generator")) or
+                    (attr_chain(t) in ("self.handshaker", "self.closer", "self.reader", "self.writer"))
+                    for t in par.targets)
+                ctx.check(R, ok, fi.qname, what, "generator object %s is stored in a variable that is not "
+                          "driven by a wrapper" % norm(n.func), fi.loc(par), what=what + " #%d" % par.lineno)
+            else:
+                ctx.fail(R, fi.qname, norm(n)[:120],
+                         "generator %s is called but never iterated: nothing it was meant to do (send an "
+                         "alert, abort the handshake, perform I/O) happens" % norm(n.func), fi.loc(n))
+    ctx.info[R + ".idioms"] = counts
+    ctx.require(sum(counts.values()) >= 280, "%s: only %d generator consumption sites found, floor 280"
+                % (R, sum(counts.values())))
+
+
+# functions that forward a value-yielding generator unchanged on purpose (their own consumers
+# take the value): public async wrappers
+FORWARDERS = ("_handshakeClientAsync", "handshakeServerAsync", "closeAsync", "_sendMsgs",
+              "_queue_flush", "_sendMsg", "_sendError", "send", "sendRecord", "_recvHeader")
+
+
+def _blocking_take(st):
+    """`for r in g(): if r in (0, 1): pass else: return r` (blocking wrapper taking the value)."""
+    from ..cfg import _is_01_test
+    if not (isinstance(st.target, ast.Name) and len(st.body) == 1 and isinstance(st.body[0], ast.If)):
+        return False
+    i = st.body[0]
+    return _is_01_test(i.test, st.target.id) and len(i.body) == 1 and isinstance(i.body[0], ast.Pass) \
+        and len(i.orelse) == 1 and isinstance(i.orelse[0], ast.Return) and \
+        isinstance(i.orelse[0].value, ast.Name) and i.orelse[0].value.id == st.target.id
